@@ -193,6 +193,10 @@ pub struct Arena {
     pub max_decisions: usize,
     pub misaligned_pairs: usize,
     pub seed: u64,
+    /// when set, every decision takes this outcome (still recorded, marked forced)
+    pub force: Option<bool>,
+    /// outcomes to impose on the next decisions, in order (used to replay one call's path on another input)
+    pub force_queue: std::collections::VecDeque<bool>,
 }
 
 impl Arena {
@@ -214,6 +218,8 @@ impl Arena {
             max_decisions: 20000,
             misaligned_pairs: 0,
             seed: 0,
+            force: None,
+            force_queue: Default::default(),
         }
     }
     pub fn mk(&mut self, n: Node) -> Tid {
@@ -331,6 +337,16 @@ pub fn set_label(l: &str) {
 pub fn label_name(id: u32) -> String {
     with(|a| a.labels[id as usize].clone())
 }
+pub fn set_force(f: Option<bool>) {
+    with(|a| a.force = f)
+}
+/// impose these outcomes on the next decisions
+pub fn force_seq(seq: Vec<bool>) {
+    with(|a| a.force_queue = seq.into())
+}
+pub fn force_pending() -> usize {
+    with(|a| a.force_queue.len())
+}
 pub fn set_mode(m: DrawMode) {
     with(|a| a.mode = m)
 }
@@ -433,7 +449,15 @@ pub fn decide(f: F) -> bool {
         }
         let shadow = a.eval(&f);
         let pos = a.decisions.len();
-        let (outcome, forced) = if pos < a.prefix.len() { (a.prefix[pos], true) } else { (shadow, false) };
+        let (outcome, forced) = if pos < a.prefix.len() {
+            (a.prefix[pos], true)
+        } else if let Some(b) = a.force_queue.pop_front() {
+            (b, true)
+        } else if let Some(b) = a.force {
+            (b, true)
+        } else {
+            (shadow, false)
+        };
         a.decisions.push(Decision { cond: f, outcome, shadow, forced, label: a.cur_label });
         if a.decisions.len() > a.max_decisions {
             panic!("symex: decision budget exceeded ({})", a.max_decisions);
@@ -722,4 +746,36 @@ pub fn n_decisions() -> usize {
 }
 pub fn n_hashes() -> usize {
     with(|a| a.hashes.len())
+}
+
+/// Evaluate formulas natively (exact F_q arithmetic) under an alternative assignment of some variables
+/// (all others keep their shadow values).  Used to re-check solver models without the solver.
+pub fn eval_with(model: &HashMap<u32, U256>, fs: &[F]) -> Vec<bool> {
+    with(|a| {
+        let saved_shadow = a.shadow.clone();
+        let saved_vars: Vec<U256> = a.vars.iter().map(|v| v.shadow).collect();
+        for (v, val) in model {
+            a.vars[*v as usize].shadow = *val;
+        }
+        for t in 0..a.nodes.len() {
+            let sh = match &a.nodes[t] {
+                Node::Const(c) => *c,
+                Node::Var(v) => fq::reduce(&a.vars[*v as usize].shadow),
+                Node::Add(x, y) => fq::add(&a.shadow[*x as usize], &a.shadow[*y as usize]),
+                Node::Sub(x, y) => fq::sub(&a.shadow[*x as usize], &a.shadow[*y as usize]),
+                Node::Mul(x, y) => fq::mul(&a.shadow[*x as usize], &a.shadow[*y as usize]),
+                Node::Neg(x) => fq::neg(&a.shadow[*x as usize]),
+            };
+            a.shadow[t] = sh;
+        }
+        let out = fs.iter().map(|f| a.eval(f)).collect();
+        a.shadow = saved_shadow;
+        for (i, v) in saved_vars.into_iter().enumerate() {
+            a.vars[i].shadow = v;
+        }
+        out
+    })
+}
+pub fn var_index(name: &str) -> Option<u32> {
+    with(|a| a.vars.iter().position(|v| v.name == name).map(|i| i as u32))
 }
